@@ -601,6 +601,12 @@ func (info *Info) FindLookups(lang language.Tag, includeFeature map[string]bool)
 	for tag := range info.ScriptList {
 		tags = append(tags, tag)
 	}
+	// Map iteration order is random: sort the tags, so that the choice of the
+	// language system (in particular the fallback when nothing matches) is
+	// the same on every call.
+	sort.Slice(tags, func(i, j int) bool {
+		return tags[i].String() < tags[j].String()
+	})
 	// TODO(voss): make sure a sensible default comes first.
 	//     Maybe this could be based on the number of features supported?
 
